@@ -551,6 +551,21 @@ def eq(a: V, b: V):
     raise Unsupported(f"equality of {type(a).__name__}")
 
 
+def filter_uniqueness(a, b):
+    """LEMMA (engine-level, proved on paper by induction on the source length; listed in the trusted base): the
+    order-preserving enumeration of the kept indices of a filter is unique -- two filters over equally long sources that
+    keep the same indices have the same length and the same source-index function.  A consequence of the two filters'
+    defining axioms, returned as a background fact for a comparison of two filtered lists (None otherwise)."""
+    fa, fb = getattr(a, "tag", None), getattr(b, "tag", None)
+    if not (isinstance(fa, tuple) and isinstance(fb, tuple) and fa[0] == "filter" and fb[0] == "filter") or fa is fb:
+        return None
+    _, sa, _, ma, na, ka = fa
+    _, sb_, _, mb, nb, kb = fb
+    j, k = fresh_int("fu"), fresh_int("fv")
+    same = z3.And(na == nb, na >= 0, z3.ForAll([j], z3.Implies(z3.And(j >= 0, j < na), ka(j) == kb(j))))
+    return z3.Implies(same, z3.And(ma == mb, z3.ForAll([k], z3.Implies(z3.And(k >= 0, k < ma), sa(k) == sb_(k)))))
+
+
 def member(lst: Lst, x: V):
     """x occurs in lst"""
     if lst.concrete:
